@@ -256,3 +256,33 @@ def explore_scenario(spec, classify=None, max_viol=3):
     summ['wall'] = time.time() - t0
     summ['traces'] = list(summ['traces'])
     return summ
+
+
+def run_plain(coro_factory, horizon=50.0):
+    """run one coroutine to completion on a fresh virtual loop with the default schedule (sequential code: no choices)"""
+    from . import seams
+
+    seams.reset_globals()
+    ch = Chooser()
+    loop = VLoop(ch, horizon=horizon)
+    ctx = contextvars.Context()
+    box = {}
+
+    def go():
+        old_hook = sys.unraisablehook
+        sys.unraisablehook = _hook
+        try:
+            t = loop.create_task(coro_factory(loop))
+            t._log_destroy_pending = False
+            box['value'] = loop.run_until_complete(t)
+        finally:
+            ch.muted = True
+            try:
+                _teardown(loop, None)
+            except BaseException:
+                pass
+            sys.unraisablehook = old_hook
+            events._set_running_loop(None)
+
+    ctx.run(go)
+    return box.get('value')
